@@ -30,7 +30,7 @@ type Tape struct {
 	RunSeed uint64 `json:"run_seed"`
 	Point   string `json:"point"`
 	Item    int    `json:"item"`
-	Mode    string `json:"mode"` // prefix | subst | field | shape | multi | flow modes (see flows_test.go)
+	Mode    string `json:"mode"` // prefix | subst | field | shape | del | multi | flow modes (see flows_test.go)
 	From    int    `json:"from"`
 	Count   int    `json:"count"`
 	Sample  bool   `json:"sample,omitempty"` // draw Count deliveries at random from the mode's space instead of a contiguous range
@@ -60,7 +60,7 @@ const chunk = 4096
 // structure-aware substitution alphabets
 func alphabet(kind string, old byte) []byte {
 	if kind == "text" {
-		return []byte{'{', '}', '[', ']', '=', '#', '\n', ' ', '*', 0}
+		return []byte{'{', '}', '[', ']', '=', '#', '\n', ' ', '*', 0, ':', '0', 'x', ';'}
 	}
 	return []byte{0x00, 0xff, 0x7f, 0x80, old + 1, old - 1, 0x30, 0x81, 0x84, old ^ 0x20}
 }
@@ -209,6 +209,8 @@ func spaceOf(p *point, item []byte, mode string) int {
 			n = len(item) * 6 // 32-bit field set to 0, 1, max; 64-bit field set to -1, -8, 2^63
 		}
 		return n
+	case "del":
+		return len(item) // one byte lost at each position
 	case "shape":
 		if p.kind != "der" {
 			return 0
@@ -285,6 +287,12 @@ func damage(p *point, item []byte, mode string, d int) (out []byte, desc string,
 			}
 		}
 		return out, fmt.Sprintf("32-bit field at %d -> %s", pos, []string{"0", "1", "max"}[k]), true
+	case "del":
+		if d >= len(item) {
+			return nil, "", false
+		}
+		out = append(append([]byte{}, item[:d]...), item[d+1:]...)
+		return out, fmt.Sprintf("byte %d (%#02x) lost", d, item[d]), true
 	case "multi":
 		// two or three faults of the single-fault modes, one after the other (each drawn over the space
 		// of the bytes the previous one left), all derived from the run seed and the delivery number
@@ -293,7 +301,7 @@ func damage(p *point, item []byte, mode string, d int) (out []byte, desc string,
 		out = item
 		var descs []string
 		for i := 0; i < k; i++ {
-			m := []string{"subst", "field", "shape", "subst", "field"}[rng.Intn(5)]
+			m := []string{"subst", "field", "shape", "subst", "field", "del"}[rng.Intn(6)]
 			if i == k-1 && rng.Chance(1, 4) {
 				m = "prefix"
 			}
